@@ -363,7 +363,15 @@ impl EPA {
                 // This happens because of numerical stability issue
                 ((curr_dist - old_dist).abs() < _eps && candidate_max_dist < max_dist)
             {
-                let best_face = &self.faces[best_face_id.id];
+                // When the bounds have met, the face being expanded lies (within the tolerance) on the
+                // boundary of the CSO: it is the answer. `best_face_id` only remembers which face *normal*
+                // gave the smallest upper bound; that face can be an older, parallel face located strictly
+                // inside the CSO, whose witnesses are closer to the origin than the penetration depth.
+                let best_face = if max_dist - curr_dist < _eps_tol {
+                    &face
+                } else {
+                    &self.faces[best_face_id.id]
+                };
                 let points = best_face.closest_points(&self.vertices);
                 return Some((points.0, points.1, best_face.normal));
             }
